@@ -431,6 +431,25 @@ func c11RabinScenarioV(c *kc.Ctx, mock bool, n, t int, faults map[int]string, vi
 	if len(rcs) > 0 {
 		c.CountKind("rabin:reconstruct-phase")
 	}
+	// The broadcast channel may repeat messages: in every other scenario with a complaint, the secret commitments
+	// and the complaints are delivered once more (in this order) before the revealed shares arrive.
+	if len(ccs) > 0 && rng.Intn(2) == 0 {
+		for _, sc := range scs {
+			for _, x := range nodes {
+				if x.fault != "absent" && uint32(x.i) != sc.Index {
+					run(func() { _, _ = x.processSecretCommits(sc) })
+				}
+			}
+		}
+		for _, cc := range ccs {
+			for _, x := range nodes {
+				if x.fault != "absent" {
+					run(func() { _, _ = x.processComplaintCommits(cc) })
+				}
+			}
+		}
+		c.CountKind("rabin:phase-two-messages-repeated")
+	}
 	// the broadcast channel may deliver in any order - another one to every node - and more than once (also back
 	// to the author)
 	for _, x := range nodes {
@@ -455,6 +474,17 @@ func c11RabinScenarioV(c *kc.Ctx, mock bool, n, t int, faults map[int]string, vi
 				}
 			}
 		}
+	}
+	// ... and a dealer may publish its secret commitments once more after everything else is over
+	if len(rcs) > 0 && rng.Intn(2) == 0 {
+		for _, sc := range scs {
+			for _, x := range nodes {
+				if x.fault != "absent" && uint32(x.i) != sc.Index {
+					run(func() { _, _ = x.processSecretCommits(sc) })
+				}
+			}
+		}
+		c.CountKind("rabin:secret-commits-repeated-after-reconstruction")
 	}
 	if tr != nil {
 		for _, x := range nodes {
